@@ -217,6 +217,17 @@ def cli_args(root, st, aux):
     return _cli_args(root, st, aux)
 
 
+def cli_cwd(root, st, aux):
+    """the working directory of a command step (None: wherever the harness runs)"""
+    if st.get("rel_dest"):
+        return aux
+    if st.get("spell") in ("rel", "dotrel"):
+        return os.path.dirname(root)
+    if st.get("spell") == "dot":
+        return os.path.join(root, st.get("root", "")) if st.get("root") else root
+    return None
+
+
 def spell_path(root, s, mode):
     """the same file or folder below root, typed in a non-normalised way"""
     if mode == "dot":
@@ -237,6 +248,14 @@ def _cli_args(root, st, aux):
         r = r + os.sep
     elif st.get("spell") == "rel" and not st.get("rel_dest"):
         r = os.path.relpath(r, os.path.dirname(root))          # relative to the working directory (= the parent of the root folder)
+    elif st.get("spell") == "dotrel" and not st.get("rel_dest"):
+        r = "." + os.sep + os.path.relpath(r, os.path.dirname(root))
+    elif st.get("spell") == "dot" and not st.get("rel_dest"):
+        r = "."                                                 # the working directory is the folder itself
+    elif st.get("spell") == "updown":
+        r = r + os.sep + ".." + os.sep + os.path.basename(r)    # absolute but not normalised
+    elif st.get("spell") == "dup":
+        r = os.path.dirname(r) + os.sep + os.sep + os.path.basename(r)
     if st.get("verbose") and op in ("create", "verify", "verifydh", "verifypl", "diff", "flatten", "info", "infosf"):
         cmd, a = _cli_args(root, {k: v for k, v in st.items() if k != "verbose"}, aux)
         return cmd, a + ["-v"]
@@ -386,9 +405,9 @@ def _run_impl(scn, scratch, keep=False, snap=False):
             from freezegun import freeze_time
 
             with freeze_time(clock):
-                outcome, out = impl.run_cli(cmd, argv, cwd=aux if st.get("rel_dest") else (os.path.dirname(root) if st.get("spell") == "rel" else None))
+                outcome, out = impl.run_cli(cmd, argv, cwd=cli_cwd(root, st, aux))
         else:
-            outcome, out = impl.run_cli(cmd, argv, cwd=aux if st.get("rel_dest") else (os.path.dirname(root) if st.get("spell") == "rel" else None))
+            outcome, out = impl.run_cli(cmd, argv, cwd=cli_cwd(root, st, aux))
         audit = impl.audit_stop() if snap else None
         after = manifest_listing(root)
         fs_changed = None
